@@ -59,7 +59,7 @@ def oracle_actions(c: Case, tr: Trace) -> Optional[str]:
                 # change_action re-enters Control< Rule >::match with the new family: the same rule again, same mode; the old
                 # family's apply is not used
                 cA, has, cfam = p[2], False, int(spec.wrap[3:])
-            stack.append({'id': nid, 'pos': p[4:7], 'n': 0, 'has': has, 'bool': bool(spec and spec.is_bool), 'cA': cA, 'cfam': cfam,
+            stack.append({'id': nid, 'pos': p[4:7], 'n': 0, 'rp': 0, 'kind': (nd.kind if nd is not None else None), 'has': has, 'bool': bool(spec and spec.is_bool), 'cA': cA, 'cfam': cfam,
                           'reenter': bool(spec is not None and (spec.wrap.startswith('ca:') or spec.wrap.startswith('cas:')))})
         elif t in ('ap', 'a0'):
             if not stack or stack[-1]['id'] != int(p[1]):
@@ -72,8 +72,18 @@ def oracle_actions(c: Case, tr: Trace) -> Optional[str]:
                 return f"action for rule {p[1]} fired twice in one invocation"
             if t == 'ap' and p[2:5] != fr['pos']:
                 return f"action span of rule {p[1]} begins at {p[2:5]}, the match began at {fr['pos']}"
+        elif t == 'rp':
+            # an action class named by apply< … > / apply0< … > / if_apply< R, … >: called inside that rule's own invocation only
+            if not stack or stack[-1]['kind'] not in ('ifApply', 'applyR'):
+                return f"rule-level action call '{l}' outside an apply / if_apply rule"
+            if stack[-1]['cA'] != '1' and False:
+                pass
+            stack[-1]['rp'] += 1
         elif t == 'X':
             fr = stack.pop()
+            if fr['kind'] in ('ifApply', 'applyR') and fr['rp'] and p[2] == '0' and p[3:6] != fr['pos']:
+                return (f"rule {fr['id']} ({fr['kind']}): one of its actions returned false, the rule failed locally, but the cursor is {p[3:6]}; "
+                        f"the attempt began at {fr['pos']}")
             if p[2] == '1':
                 if fr['has'] and fr['n'] != 1:
                     return f"rule {fr['id']} matched with its action enabled but the action fired {fr['n']} times"
@@ -120,6 +130,10 @@ def run(tier: str) -> int:
                                 inputs=profiles.inputs_exhaustive(4, 6, cap_q=150, cap_t=900), per_tu=2,
                                 configs=profiles.amr_configs(ams=((1, 'r'), (1, 'o')), lazies=(0, 1))),
     ]
+    # the rule-level way to attach actions, with nothing around it that takes a rewind guard of its own (no actions on the other rules)
+    ps.append(profiles.systematic_profile('ruleacts', lambda k, f: f == 'apply', True, 20, 80, ORACLES, actions_mode='none',
+                                          inputs=profiles.inputs_exhaustive(3, 5, cap_q=80, cap_t=500), per_tu=2, configs=cfg,
+                                          ctx_names=['top', 'sor-first', 'seq-tail', 'in-at', 'in-disable', 'in-opt', 'in-tcrf']))
     ps.append(profiles.random_profile('wraps', False, True, 16, 90, ORACLES, actions_mode='switch',
                                       inputs=profiles.inputs_exhaustive(4, 6, cap_q=150, cap_t=900), per_tu=2,
                                       configs=profiles.amr_configs(ams=((1, 'r'), (1, 'o'), (0, 'o')), lazies=(0, 1))))
